@@ -180,8 +180,8 @@ PROPS = {
         'props': 'Props/C19.v',
         'suites': [{'name': 'buf', 'oracles': {'buf': 'o_buf'}, 'trivial_tags': [], 'vm_sample': 8}],
         'rule': 'operation sequences of 5-45 operations on ring.Buffer (initial sizes 0..5000), elastic.RingBuffer (pooled ring) and elastic.Buffer (static threshold 1..8192) through their exported APIs: Write, Writev, WriteByte, Peek(n) incl. n<=0, Discard, Read, ReadByte, Reset; sizes are chosen adaptively from the live state (exact fill, one off, distance to the static/dynamic threshold, 0, small/medium/large up to 9000 bytes) so that wrap-around, growth below and above the 4 KiB grow threshold and ring-to-list spill are hit; data bytes are a running counter so any reordering or corruption is visible. distinct = distinct (kind, parameter, operation list); non-trivial = all (every sequence has writes and drains)',
-        'explanation': 'placeholder',
-        'assumptions': ['fewer than 2^31 bytes are buffered (Go int / math.MaxInt32 substitution in Peek)'],
+        'explanation': 'Theorems over ALL operation sequences: ring.Buffer, elastic.RingBuffer and elastic.Buffer conform to an ideal FIFO byte queue - every Peek/Read result is the oldest bytes, every Discard count and every Buffered()/IsEmpty() is exact, for any initial capacity, any recycled-ring capacity and any static threshold (C19_ring_is_a_fifo, C19_elastic_ring_is_a_fifo, C19_elastic_buffer_is_a_fifo; refinement through a view of the circular buffer as empty / linear / wrapped segments; growth capacity proved sufficient incl. the 1.25x loop). One genuine defect repaired (WriteByte on a full ring >= 4 KiB wrote past the slice). The models are tied to the Go buffers by operation sequences on the exported APIs; an independent FIFO oracle is evaluated on the Go results. False alarm fixed while building: the oracle first demanded that elastic.Buffer.Peek(n) return exactly n bytes; it returns whole chunks (>= n), which its callers handle - the oracle and the theorem now state prefix + at-least-n.',
+        'assumptions': ['fewer than 2^31 bytes are written in total (small_size; Go int and the math.MaxInt32 substitution in Peek)', 'slices returned by Peek alias the buffer: callers must consume them before the next write (the harness copies them at once; eventloop.write does)', 'ReadFrom / WriteTo (io.Reader / io.Writer variants, unused by the proxy) and the byteslice pool internals are not modelled', 'partial socket writes and EPOLLOUT re-arming in connection.go write/writev are exercised by the event-loop suites only as far as socketpairs produce them'],
     },
     'C13': {
         'props': 'Props/C13.v',
@@ -223,8 +223,8 @@ MANIFEST_TEXT = {
         'technique': 'Coq proof (inductive invariant + step theorems) + differential correspondence through the real event loop',
     },
     'C19': {
-        'text': 'placeholder',
-        'note': 'placeholder',
+        'text': 'Coq refinement proofs: ring.Buffer, elastic.RingBuffer and elastic.Buffer conform to an ideal FIFO byte queue for every operation sequence (exact results, exact lengths; Peek of the mixed buffer: oldest bytes, at least n). Differential run of generated operation sequences on the exported Go APIs with controlled pool contents, plus an independent FIFO oracle.',
+        'note': 'Trusted: Coq kernel, extraction, Go harness + hooks (elastic/verif_hooks.go, pool/ringbuffer/verif_hooks.go), transcription in Model/Buffers.v (validated on every run). Bound: < 2^31 bytes.',
         'technique': 'Coq proof (refinement to a FIFO byte queue) + differential correspondence on the exported buffer APIs',
     },
     'C13': {
